@@ -2,7 +2,7 @@
    in IRCP.InvPrims / IRCP.InvStep / IRCP.Reach.  Every ending (QUIT, EOF / reset, bad text,
    over-long line, pong timeout, KILL, DIE) goes through [teardown] in the model (Step.v). *)
 From IRC Require Import Str Wild Glob Parse Reply State Handlers Step.
-From IRCP Require Import InvDefs InvPrims InvStep Reach.
+From IRCP Require Import InvDefs InvPrims InvStep Reach CloseP EndP.
 From stdpp Require Import gmap.
 
 Section C06.
@@ -58,6 +58,33 @@ Qed.
 Theorem C06_reachable : forall w, reachable cfg verify w -> InvK w.
 Proof. intros w R. apply InvK_of_Inv. exact (proj1 (reachable_inv cfg verify w R)). Qed.
 
+(* whole steps.  A closing event of a registered connection - EOF / reset at any moment, invalid
+   text, an over-long line, the pong timeout - IS the teardown of that connection and nothing else:
+   exactly its own connection is closed, no pending KILL is involved, and the new world is the
+   teardown result with all the clauses of C06_teardown *)
+Theorem C06_closing_event : forall w i e c n w' o cl,
+  Inv w -> conns w !! i = Some c -> c_auth c = true -> c_nick c = Some n -> closing_event e = true ->
+  step cfg verify w i e = Ok (w', o, cl) ->
+  exists u, users (sh w) !! n = Some u /\ u_conn u = i /\ cl = [i] /\
+    teardown i w = Ok w' /\
+    conns w' = delete i (conns w) /\ (nconns w' + 1 = nconns w)%N /\
+    users (sh w') = delete n (users (sh w)) /\
+    wallops (sh w') = wallops (sh w) ∖ {[n]} /\
+    histories (sh w') = <[n := default [] (histories (sh w) !! n) ++ [u_hist u]]> (histories (sh w)) /\
+    (forall ch, ch ∉ u_chans u -> chans (sh w') !! ch = chans (sh w) !! ch) /\
+    (forall ch co, ch ∈ u_chans u -> chans (sh w) !! ch = Some co ->
+       exists co', chan_remove_user n co = Ok co' /\ chans (sh w') !! ch = chan_after_leave co').
+Proof. exact (closing_event_effect cfg verify). Qed.
+
+(* QUIT: the ERROR line, exactly the own connection closed, exactly the own user removed *)
+Theorem C06_quit : forall w i c n l msg w' o cl,
+  Inv w -> conns w !! i = Some c -> c_auth c = true -> c_nick c = Some n ->
+  tokenize l = inl msg -> command_of_message msg = inl QUIT ->
+  step cfg verify w i (EvLine l) = Ok (w', o, cl) ->
+  cl = [i] /\ o = [(i, srv cfg (lit "ERROR: Closing connection"))] /\
+  users (sh w') = delete n (users (sh w)) /\ conns w' = delete i (conns w).
+Proof. exact (quit_effect cfg verify). Qed.
+
 End C06.
 
 Print Assumptions C06_teardown.
@@ -65,3 +92,5 @@ Print Assumptions C06_channel_after.
 Print Assumptions C06_no_trace.
 Print Assumptions C06_unregistered_end.
 Print Assumptions C06_reachable.
+Print Assumptions C06_closing_event.
+Print Assumptions C06_quit.
